@@ -115,6 +115,139 @@ Proof.
   - rewrite upd_other by exact Hn. apply IH.
 Qed.
 
+(* ---------- the fields the live-part equation talks about ---------- *)
+
+Definition gh2 (k : cons) := (c_reg k, c_regat k, c_unregat k, c_prefill k, c_pushed k, c_keep k).
+
+Lemma gh2_gh : forall k k', gh2 k' = gh2 k -> gh k' = gh k.
+Proof. intros k k' H. unfold gh2 in H. unfold gh. congruence. Qed.
+
+Lemma gh2_wake : forall k, gh2 (wake k) = gh2 k.
+Proof. intros k. unfold wake. destruct (c_pc k); try reflexivity. destruct (c_q k); reflexivity. Qed.
+
+Lemma gh2_push_nil : forall k, gh2 (push k None) = gh2 k.
+Proof. intros. unfold push. rewrite gh2_wake. reflexivity. Qed.
+
+Lemma gh2_close_cons : forall k, gh2 (close_cons fixed k) = gh2 k.
+Proof.
+  intros. unfold close_cons. destruct (c_closed k); [reflexivity|].
+  cbn [v_push fixed]. rewrite gh2_push_nil. reflexivity.
+Qed.
+
+Lemma gh2_send : forall maxq k p, exists d : bool,
+  gh2 (send maxq k p) =
+  (c_reg k, c_regat k, c_unregat k, c_prefill k,
+   (if d then c_pushed k else c_pushed k ++ [p]), c_keep k ++ [negb d]).
+Proof.
+  intros. unfold send. cbv zeta.
+  match goal with |- exists _, gh2 (if ?d then _ else _) = _ => exists d; destruct d end;
+    [reflexivity|].
+  unfold push. rewrite gh2_wake. reflexivity.
+Qed.
+
+Lemma send_all_at : forall maxq n f p c,
+  send_all maxq n f p c =
+  if ((c <? n)%nat && c_reg (f c))%bool then send maxq (f c) p else f c.
+Proof.
+  induction n as [|n IH]; intros f p c; [reflexivity|].
+  cbn [send_all]. cbv zeta.
+  destruct (Nat.eq_dec n c) as [->|Hn].
+  - assert (E : send_all maxq c f p c = f c) by (rewrite IH, Nat.ltb_irrefl; reflexivity).
+    rewrite E. replace (c <? S c)%nat with true by (symmetry; apply Nat.ltb_lt; lia). cbn [andb].
+    destruct (c_reg (f c)); [rewrite upd_same; reflexivity|exact E].
+  - assert (E : (c <? S n)%nat = (c <? n)%nat).
+    { destruct (Nat.ltb_spec c n), (Nat.ltb_spec c (S n)); try reflexivity; lia. }
+    rewrite E. destruct (c_reg (send_all maxq n f p n)); [rewrite upd_other by exact Hn|]; apply IH.
+Qed.
+
+(* what holds of one consumer, given the sent log *)
+Definition KC (sent : list pkt) (k : cons) : Prop :=
+  match c_regat k with
+  | None => c_reg k = false /\ c_keep k = [] /\ c_unregat k = None /\ c_pushed k = c_prefill k
+  | Some r =>
+      (r <= length sent)%nat /\
+      c_pushed k = c_prefill k ++ jselect (c_keep k) (jwindow sent r (c_unregat k)) /\
+      length (c_keep k) = length (jwindow sent r (c_unregat k)) /\
+      match c_unregat k with
+      | None => c_reg k = true
+      | Some u => c_reg k = false /\ (r <= u <= length sent)%nat
+      end
+  end.
+
+Lemma KC_gh2 : forall sent k k', gh2 k' = gh2 k -> KC sent k -> KC sent k'.
+Proof.
+  intros sent k k' H. unfold gh2 in H. injection H as E1 E2 E3 E4 E5 E6.
+  unfold KC. rewrite E1, E2, E3, E4, E5, E6. auto.
+Qed.
+
+Lemma KC_unreg : forall sent k, c_reg k = true -> KC sent k -> KC sent (set_reg k false (length sent)).
+Proof.
+  intros sent k Hr. unfold KC. cbn.
+  destruct (c_regat k) as [r|]; [|intros (H & _); congruence].
+  destruct (c_unregat k) as [u|]; [intros (_ & _ & _ & H & _); congruence|].
+  intros (H1 & H2 & H3 & _). unfold jwindow in *. rewrite firstn_all. repeat split; auto; lia.
+Qed.
+
+Lemma KC_send : forall maxq sent k p,
+  c_reg k = true -> KC sent k -> KC (sent ++ [p]) (send maxq k p).
+Proof.
+  intros maxq sent k p Hr. destruct (gh2_send maxq k p) as [d Hd].
+  unfold gh2 in Hd. injection Hd as E1 E2 E3 E4 E5 E6.
+  unfold KC. rewrite E1, E2, E3, E4, E5, E6.
+  destruct (c_regat k) as [r|]; [|intros (H & _); congruence].
+  destruct (c_unregat k) as [u|]; [intros (_ & _ & _ & H & _); congruence|].
+  intros (H1 & H2 & H3 & _). unfold jwindow in *.
+  rewrite skipn_app. replace (r - length sent)%nat with O by lia. cbn [skipn].
+  rewrite jselect_app by exact H3. rewrite !app_length. cbn [length].
+  repeat split; auto; try lia.
+  rewrite H2. destruct d; cbn; rewrite ?app_nil_r, <- ?app_assoc; reflexivity.
+Qed.
+
+Lemma KC_grow : forall sent k p, c_reg k = false -> KC sent k -> KC (sent ++ [p]) k.
+Proof.
+  intros sent k p Hr. unfold KC.
+  destruct (c_regat k) as [r|]; [|auto].
+  destruct (c_unregat k) as [u|]; [|intros (_ & _ & _ & H); congruence].
+  intros (H1 & H2 & H3 & H4 & H5). unfold jwindow in *.
+  rewrite firstn_app_le by lia. rewrite app_length. cbn. repeat split; auto; lia.
+Qed.
+
+Lemma KC_reg : forall sent k,
+  c_regat k = None -> KC sent k -> KC sent (set_reg k true (length sent)).
+Proof.
+  intros sent k Hn. unfold KC. rewrite Hn. cbn. intros (H1 & H2 & H3 & H4).
+  rewrite H3. unfold jwindow. rewrite skipn_all. rewrite H2. cbn. rewrite app_nil_r. auto.
+Qed.
+
+Lemma KC_exit_path : forall sent k, KC sent k -> KC sent (exit_path fixed k (length sent)).
+Proof.
+  intros sent k H. unfold exit_path. cbn [v_atomic fixed]. destruct (c_reg k) eqn:Hr.
+  - eapply KC_gh2; [|apply KC_unreg; eassumption]. reflexivity.
+  - eapply KC_gh2; [|exact H]. reflexivity.
+Qed.
+
+Lemma KC_loop_test : forall sent k, KC sent k -> KC sent (loop_test fixed k (length sent)).
+Proof.
+  intros sent k H. unfold loop_test. destruct (c_closed k); [apply KC_exit_path, H|].
+  eapply KC_gh2; [|exact H]. reflexivity.
+Qed.
+
+Lemma KC_close : forall sent k, KC sent k -> KC sent (close_cons fixed k).
+Proof. intros sent k H. eapply KC_gh2; [apply gh2_close_cons|exact H]. Qed.
+
+Lemma creg_gh2 : forall k k', gh2 k' = gh2 k -> c_reg k' = c_reg k.
+Proof. intros k k' H. unfold gh2 in H. congruence. Qed.
+
+Lemma creg_exit_path : forall k n, c_reg (exit_path fixed k n) = false.
+Proof.
+  intros. unfold exit_path. cbn [v_atomic fixed]. destruct (c_reg k) eqn:E; [reflexivity|exact E].
+Qed.
+
+Lemma creg_loop_test : forall k n, c_reg (loop_test fixed k n) = true -> c_reg k = true.
+Proof.
+  intros k n. unfold loop_test. destruct (c_closed k); [rewrite creg_exit_path; discriminate|auto].
+Qed.
+
 Section Join.
 Variable maxq : nat.
 Variable cache_t : Type.
@@ -535,4 +668,368 @@ Proof.
   apply (j_reg s (j_core s Hi) c r H).
 Qed.
 
+(* ---------- the live part: what is pushed after the pre-fill ---------- *)
+
+Definition KInv (s : ST) : Prop :=
+  forall c, KC (s_sent s) (s_cs s c) /\ (c_reg (s_cs s c) = true -> (c < ncons)%nat).
+
+Lemma KInv_upd : forall (s : ST) c k',
+  KInv s -> KC (s_sent s) k' -> (c_reg k' = true -> (c < ncons)%nat) ->
+  forall c', KC (s_sent s) (upd (s_cs s) c k' c') /\ (c_reg (upd (s_cs s) c k' c') = true -> (c' < ncons)%nat).
+Proof.
+  intros s c k' Hk H1 H2 c'. destruct (Nat.eq_dec c c') as [<-|Hn].
+  - rewrite upd_same. auto.
+  - rewrite upd_other by exact Hn. apply Hk.
+Qed.
+
+Lemma after_acquire_K : forall (s : ST) h q,
+  JCore s -> KInv s ->
+  (forall c, h = HAtt c -> s_att s c = A0 \/ s_att s c = A0W) ->
+  KInv (after_acq s h q).
+Proof.
+  intros s h q Hc Hk Hatt. destruct h as [|c]; cbn [after_acquire].
+  - destruct (s_todo s); exact Hk.
+  - specialize (Hatt c eq_refl). pose proof (j_early s Hc c Hatt) as Hn.
+    intros c'. cbn. apply KInv_upd; auto.
+    + destruct (Hk c) as [H _]. unfold KC in *. cbn. rewrite Hn in *.
+      destruct H as (H1 & H2 & H3 & H4). auto.
+    + cbn. apply Hk.
+Qed.
+
+Lemma release_K : forall s : ST, JCore s -> KInv s -> KInv (releaseF s).
+Proof.
+  intros s Hc Hk. unfold release. cbn [v_lock fixed].
+  destruct (s_lockq s) as [|h rest] eqn:Eq; [exact Hk|].
+  apply after_acquire_K; auto.
+  intros c ->. right. apply (j_qatt s Hc). rewrite Eq. left; reflexivity.
+Qed.
+
+Lemma acquire_K : forall (s : ST) h,
+  JInv s -> KInv s -> (forall c, h = HAtt c -> s_att s c = A0) -> KInv (acquireF s h).
+Proof.
+  intros s h Hi Hk Hatt. unfold acquire. cbn [v_lock fixed].
+  destruct (s_lock s).
+  - destruct h; exact Hk.
+  - apply after_acquire_K; [apply Hi|exact Hk|]. intros c E. left. auto.
+Qed.
+
+Lemma step_pub_K : forall s s' : ST,
+  JInv s -> KInv s -> step_pub fixed maxq cache_t cache_add cache_snap ncons s = Some s' -> KInv s'.
+Proof.
+  intros s s' Hi Hk. unfold step_pub.
+  destruct (s_pp s) eqn:Ep; destruct (s_todo s) as [|p rest] eqn:Et; try discriminate.
+  - destruct (s_ok s); intros H; injection H as <-; exact Hk.
+  - intros H; injection H as <-. apply acquire_K; [exact Hi|exact Hk|intros; discriminate].
+  - intros H; injection H as <-.
+    destruct (pub_mid_core s p rest Hi Ep Et) as [Hc Hf].
+    apply (release_K _ Hc). intros c. cbn. rewrite send_all_at. destruct (Hk c) as [H1 H2].
+    destruct (c_reg (s_cs s c)) eqn:Hr.
+    + rewrite (proj2 (Nat.ltb_lt c ncons) (H2 eq_refl)). cbn [andb]. split.
+      * apply KC_send; assumption.
+      * intros _. auto.
+    + rewrite andb_false_r. split; [apply KC_grow; assumption|congruence].
+Qed.
+
+Lemma step_att_K : forall (s s' : ST) c,
+  (c < ncons)%nat -> JInv s -> KInv s ->
+  step_att fixed cache_t cache_add cache_snap s c = Some s' -> KInv s'.
+Proof.
+  intros s s' c Hlt Hi Hk. unfold step_att.
+  destruct (s_att s c) eqn:Ea; try discriminate.
+  - intros H; injection H as <-. apply acquire_K; [exact Hi|exact Hk|].
+    intros c' E. injection E as <-. exact Ea.
+  - intros H; injection H as <-.
+    destruct (att_mid_core s c Hi Ea) as [Hc Hf].
+    apply (release_K _ Hc). intros c'. cbn. apply KInv_upd; auto.
+    apply KC_reg; [apply (j_snap s (j_core s Hi) c Ea)|apply Hk].
+  - intros H.
+    assert (Hk1 : forall k1 cnt,
+      (if v_recheck fixed && negb (s_ok s) && c_reg (s_cs s c)
+       then (close_cons fixed (set_reg (s_cs s c) false (length (s_sent s))), (s_count s - 1)%Z)
+       else (s_cs s c, s_count s)) = (k1, cnt) ->
+      KC (s_sent s) k1 /\ (c_reg k1 = true -> c_reg (s_cs s c) = true)).
+    { intros k1 cnt E. destruct (c_reg (s_cs s c)) eqn:Hr.
+      - destruct (v_recheck fixed && negb (s_ok s)); cbn [andb] in E; injection E as <- <-.
+        + split; [apply KC_close, KC_unreg; [exact Hr|apply Hk]|auto].
+        + split; [apply Hk|auto].
+      - rewrite andb_false_r in E. injection E as <- <-. split; [apply Hk|congruence]. }
+    destruct (if v_recheck fixed && negb (s_ok s) && c_reg (s_cs s c)
+       then (close_cons fixed (set_reg (s_cs s c) false (length (s_sent s))), (s_count s - 1)%Z)
+       else (s_cs s c, s_count s)) as [k1 cnt].
+    destruct (Hk1 k1 cnt eq_refl) as [Hc1 Hr1]. injection H as <-.
+    intros c'. cbn. apply KInv_upd; auto.
+    apply KC_loop_test, Hc1.
+Qed.
+
+Lemma step_stop_K : forall (s s' : ST) c,
+  KInv s -> step_stop fixed cache_t s c = Some s' -> KInv s'.
+Proof.
+  intros s s' c Hk. unfold step_stop. cbn [v_atomic fixed].
+  destruct (s_stp s c); try discriminate.
+  - destruct (c_reg (s_cs s c)) eqn:Hr; intros H; injection H as <-; [|exact Hk].
+    intros c'. cbn. apply KInv_upd; auto.
+    + apply KC_unreg; [exact Hr|apply Hk].
+    + cbn. discriminate.
+  - intros H; injection H as <-. intros c'. cbn. apply KInv_upd; auto.
+    + apply KC_close, Hk.
+    + rewrite (creg_gh2 _ _ (gh2_close_cons _)). apply Hk.
+Qed.
+
+Lemma step_cons_K : forall (s s' : ST) c,
+  KInv s -> step_cons fixed cache_t panic_at s c = Some s' -> KInv s'.
+Proof.
+  intros s s' c Hk. unfold step_cons. cbn [v_atomic fixed].
+  destruct (Hk c) as [Hc Hr].
+  destruct (c_pc (s_cs s c)) as [| |[p|]| | |]; try discriminate.
+  - destruct (c_q (s_cs s c)); intros H; injection H as <-; intros c'; cbn; apply KInv_upd; auto.
+  - destruct (Nat.eqb _ _); intros H; injection H as <-; intros c'; cbn; apply KInv_upd; auto.
+    + apply KC_exit_path. eapply KC_gh2; [|exact Hc]. reflexivity.
+    + rewrite creg_exit_path. discriminate.
+    + apply KC_loop_test. eapply KC_gh2; [|exact Hc]. reflexivity.
+    + intros H. apply creg_loop_test in H. auto.
+  - intros H; injection H as <-. intros c'; cbn; apply KInv_upd; auto.
+    + apply KC_loop_test, Hc.
+    + intros H. apply creg_loop_test in H. auto.
+  - intros H; injection H as <-. intros c'; cbn; apply KInv_upd; auto.
+    + eapply KC_gh2; [|apply KC_close, Hc]. reflexivity.
+    + cbn. rewrite (creg_gh2 _ _ (gh2_close_cons _)). exact Hr.
+Qed.
+
+Lemma step_K : forall (s s' : ST) t,
+  t <> TClose -> JInv s -> KInv s -> stepF s t = Some s' -> KInv s'.
+Proof.
+  intros s s' t Ht Hi Hk. destruct t as [| |c|c|c]; cbn [step].
+  - apply step_pub_K; assumption.
+  - contradiction.
+  - destruct (Nat.ltb_spec c ncons); [apply step_att_K; assumption|discriminate].
+  - destruct (c <? ncons)%nat; [|discriminate].
+    destruct (s_att s c); try discriminate. apply step_stop_K, Hk.
+  - destruct (c <? ncons)%nat; [apply step_cons_K, Hk|discriminate].
+Qed.
+
+Lemma run_K : forall sched (s : ST),
+  Forall (fun t => t <> TClose) sched -> JInv s -> KInv s ->
+  JInv (runF sched s) /\ KInv (runF sched s).
+Proof.
+  induction sched as [|t sched IH]; intros s Hs Hi Hk; [auto|].
+  inversion Hs; subst. cbn [run].
+  destruct (stepF s t) eqn:E; [|apply IH; assumption].
+  apply IH; [assumption|eapply step_inv; eauto|eapply step_K; eauto].
+Qed.
+
+Lemma init_K : forall pkts stoppers, KInv (initF pkts stoppers).
+Proof. intros pkts stoppers c. cbn. split; [repeat split|discriminate]. Qed.
+
+(* JOIN CONTIGUITY (abstract cache): a consumer registered at sent-log length r was pre-filled
+   with the cache of sent[0..r), and everything pushed to it afterwards is a selection (its own
+   keep/drop decisions, one per packet) of sent[r..u): the live part starts exactly at index r. *)
+Theorem join_contiguous : forall pkts stoppers sched,
+  Forall (fun t => t <> TClose) sched ->
+  let s := runF sched (initF pkts stoppers) in
+  forall c r, c_regat (s_cs s c) = Some r ->
+    let k := s_cs s c in
+    (r <= length (s_sent s))%nat /\
+    c_prefill k = cache_snap (cache_of (firstn r (s_sent s))) /\
+    c_pushed k = c_prefill k ++ jselect (c_keep k) (jwindow (s_sent s) r (c_unregat k)) /\
+    length (c_keep k) = length (jwindow (s_sent s) r (c_unregat k)).
+Proof.
+  intros pkts stoppers sched Hs s c r H k.
+  destruct (run_K sched (initF pkts stoppers) Hs (init_inv _ _) (init_K _ _)) as [Hi Hk].
+  fold s in Hi, Hk.
+  destruct (j_reg s (j_core s Hi) c r H) as [H1 H2].
+  destruct (Hk c) as [Hc _]. unfold KC in Hc. rewrite H in Hc.
+  destruct Hc as (_ & H3 & H4 & _). auto.
+Qed.
+
+(* ---------- on a live stream the sent log is a prefix of the published list ---------- *)
+
+Definition pk (s : ST) := (s_ok s, s_sent s, s_todo s).
+
+Lemma pk_after_acquire : forall (s : ST) h q, pk (after_acq s h q) = pk s.
+Proof. intros s h q. destruct h; cbn [after_acquire]; [destruct (s_todo s)|]; reflexivity. Qed.
+
+Lemma pk_acquire : forall (s : ST) h, pk (acquireF s h) = pk s.
+Proof.
+  intros s h. unfold acquire. cbn [v_lock fixed]. destruct (s_lock s).
+  - destruct h; reflexivity.
+  - apply pk_after_acquire.
+Qed.
+
+Lemma pk_release : forall s : ST, pk (releaseF s) = pk s.
+Proof.
+  intros s. unfold release. cbn [v_lock fixed]. destruct (s_lockq s); [reflexivity|].
+  apply pk_after_acquire.
+Qed.
+
+Definition PInv (pkts : list pkt) (s : ST) : Prop :=
+  s_ok s = true /\ pkts = s_sent s ++ s_todo s.
+
+Lemma PInv_pk : forall pkts (s s' : ST), pk s' = pk s -> PInv pkts s -> PInv pkts s'.
+Proof. intros pkts s s' H. unfold pk in H. injection H as E1 E2 E3. unfold PInv. rewrite E1, E2, E3. auto. Qed.
+
+Lemma step_P : forall pkts (s s' : ST) t,
+  t <> TClose -> PInv pkts s -> stepF s t = Some s' -> PInv pkts s'.
+Proof.
+  intros pkts s s' t Ht Hp. destruct t as [| |c|c|c]; cbn [step].
+  - unfold step_pub. destruct Hp as [Hok Hpk].
+    destruct (s_pp s); destruct (s_todo s) as [|p rest] eqn:Et; try discriminate.
+    + rewrite Hok. intros H; injection H as <-. split; cbn; [reflexivity|rewrite Hpk; reflexivity].
+    + intros H; injection H as <-. eapply PInv_pk; [apply pk_acquire|]. split; [exact Hok|rewrite Hpk, Et; reflexivity].
+    + intros H; injection H as <-. eapply PInv_pk; [apply pk_release|]. split; cbn; [exact Hok|].
+      rewrite Hpk, <- app_assoc. reflexivity.
+  - contradiction.
+  - destruct (c <? ncons)%nat; [|discriminate]. unfold step_att.
+    destruct (s_att s c); try discriminate.
+    + intros H; injection H as <-. eapply PInv_pk; [apply pk_acquire|exact Hp].
+    + intros H; injection H as <-. eapply PInv_pk; [apply pk_release|exact Hp].
+    + destruct (if v_recheck fixed && negb (s_ok s) && c_reg (s_cs s c) then _ else _) as [k1 cnt].
+      intros H; injection H as <-. exact Hp.
+  - destruct (c <? ncons)%nat; [|discriminate]. destruct (s_att s c); try discriminate.
+    unfold step_stop. destruct (s_stp s c); try discriminate.
+    + destruct (c_reg (s_cs s c)); intros H; injection H as <-; exact Hp.
+    + intros H; injection H as <-; exact Hp.
+  - destruct (c <? ncons)%nat; [|discriminate]. unfold step_cons.
+    destruct (c_pc (s_cs s c)) as [| |[p|]| | |]; try discriminate.
+    + destruct (c_q (s_cs s c)); intros H; injection H as <-; exact Hp.
+    + destruct (Nat.eqb _ _); intros H; injection H as <-; exact Hp.
+    + intros H; injection H as <-; exact Hp.
+    + intros H; injection H as <-; exact Hp.
+Qed.
+
+Theorem sent_is_prefix : forall pkts stoppers sched,
+  Forall (fun t => t <> TClose) sched ->
+  let s := runF sched (initF pkts stoppers) in
+  pkts = s_sent s ++ s_todo s.
+Proof.
+  intros pkts stoppers sched Hs.
+  assert (G : forall (s : ST), PInv pkts s -> PInv pkts (runF sched s)).
+  { induction Hs as [|t sched Ht Hs IH]; intros s Hp; [exact Hp|].
+    cbn [run]. destruct (stepF s t) eqn:E; [|apply IH, Hp].
+    apply IH. eapply step_P; eauto. }
+  cbv zeta. apply G. split; reflexivity.
+Qed.
+
 End Join.
+
+(* ---------- the concrete H.264/H.265 cache ---------- *)
+
+Lemma jselect_incl : forall A (keep : list bool) (l : list A) x, In x (jselect keep l) -> In x l.
+Proof.
+  induction keep as [|b keep IH]; intros l x H; [destruct H|].
+  destruct l as [|y l]; [destruct H|]. cbn in H. destruct b.
+  - destruct H as [<-|H]; [left; reflexivity|right; apply IH, H].
+  - right; apply IH, H.
+Qed.
+
+Lemma NoDup_app_disjoint : forall A (l1 l2 : list A) x, NoDup (l1 ++ l2) -> In x l1 -> In x l2 -> False.
+Proof.
+  induction l1 as [|a l1 IH]; intros l2 x Hn H1 H2; [destruct H1|].
+  cbn in Hn. inversion Hn; subst. destruct H1 as [<-|H1].
+  - apply H3. apply in_or_app. right; exact H2.
+  - eapply IH; eauto.
+Qed.
+
+Lemma jwindow_incl : forall sent r u x, In x (jwindow sent r u) -> In x (skipn r sent).
+Proof.
+  intros sent r u x. unfold jwindow. destruct u as [u|]; [|auto].
+  intros H. rewrite <- (firstn_skipn u sent) at 1. rewrite skipn_app.
+  apply in_or_app. left. exact H.
+Qed.
+
+Notation rrun maxq gopon ncons panic_at sched pkts stoppers :=
+  (run fixed maxq rcache (rc_empty gopon) rc_add rc_snap ncons panic_at sched
+       (init rcache (rc_empty gopon) pkts stoppers)).
+
+(* C02 join_contiguous for the RTP caches: the joiner's queue starts with [VPS] SPS PPS = the
+   latest parameter-set packets among sent[0..r) and, when cache_gop, the video packets from the
+   last key start in sent[0..r) on; what follows is a selection of sent[r..u): the live part
+   starts exactly where the replayed part ended. *)
+Theorem join_contiguous_rcache : forall maxq gopon ncons panic_at pkts stoppers sched,
+  Forall (fun t => t <> TClose) sched ->
+  let s := rrun maxq gopon ncons panic_at sched pkts stoppers in
+  forall c r, c_regat (s_cs s c) = Some r ->
+    let k := s_cs s c in
+    (r <= length (s_sent s))%nat /\
+    c_prefill k = spec_snap gopon (firstn r (s_sent s)) /\
+    c_pushed k = spec_snap gopon (firstn r (s_sent s)) ++
+                 jselect (c_keep k) (jwindow (s_sent s) r (c_unregat k)) /\
+    length (c_keep k) = length (jwindow (s_sent s) r (c_unregat k)).
+Proof.
+  intros maxq gopon ncons panic_at pkts stoppers sched Hs s c r H k.
+  destruct (join_contiguous maxq rcache (rc_empty gopon) rc_add rc_snap ncons panic_at
+              pkts stoppers sched Hs c r H) as (H1 & H2 & H3 & H4).
+  fold s in H1, H2, H3, H4. fold k in H2, H3, H4.
+  unfold cache_of in H2. rewrite cache_is_spec in H2.
+  repeat split; auto. rewrite <- H2. exact H3.
+Qed.
+
+(* no repeat: when the published packets are pairwise distinct, nothing of the replayed part
+   shows up again in the live part *)
+Theorem join_no_repeat_rcache : forall maxq gopon ncons panic_at pkts stoppers sched,
+  Forall (fun t => t <> TClose) sched -> NoDup pkts ->
+  let s := rrun maxq gopon ncons panic_at sched pkts stoppers in
+  forall c r, c_regat (s_cs s c) = Some r ->
+    let k := s_cs s c in
+    forall p, In p (c_prefill k) -> ~ In p (jselect (c_keep k) (jwindow (s_sent s) r (c_unregat k))).
+Proof.
+  intros maxq gopon ncons panic_at pkts stoppers sched Hs Hnd s c r H k p Hp Hl.
+  destruct (join_contiguous_rcache maxq gopon ncons panic_at pkts stoppers sched Hs c r H)
+    as (H1 & H2 & _).
+  fold s in H1, H2. fold k in H2.
+  pose proof (sent_is_prefix maxq rcache (rc_empty gopon) rc_add rc_snap ncons panic_at
+                pkts stoppers sched Hs) as Hpre. cbv zeta in Hpre. fold s in Hpre.
+  rewrite H2 in Hp. apply snap_incl in Hp.
+  apply jselect_incl, jwindow_incl in Hl.
+  rewrite Hpre, <- (firstn_skipn r (s_sent s)), <- app_assoc in Hnd.
+  apply (NoDup_app_disjoint _ _ _ p Hnd Hp). apply in_or_app. left; exact Hl.
+Qed.
+
+(* ---------- the code before the join mutex (variant [original]): D1 ---------- *)
+
+Definition d1_case (kind : Z) (sched : list tid) : lcase :=
+  {| l_var := original; l_n := 1; l_maxq := 5; l_gop := true;
+     l_pkts := [ {| p_id := 1; p_kind := kind |} ]; l_stop := [false]; l_sched := sched;
+     l_panic := [O] |}.
+
+(* repeat: publisher caches p1, the attacher snapshots (p1 is in the cache) and registers, then
+   the publisher broadcasts p1: the consumer is handed p1 twice *)
+Definition d1_repeat : lcase :=
+  d1_case 3 [TPub; TPub; TAtt 0; TAtt 0; TPub; TAtt 0; TCons 0; TCons 0; TCons 0; TCons 0].
+
+Example join_repeat_refuted :
+  let s := lrun d1_repeat in let k := s_cs s 0 in
+  let p1 := {| p_id := 1; p_kind := 3 |} in
+  c_regat k = Some 0%nat /\ s_sent s = [p1] /\
+  c_prefill k = [p1] /\ c_prefill k <> spec_snap true (firstn 0 (s_sent s)) /\
+  c_out k = [p1; p1].
+Proof.
+  vm_compute. split; [reflexivity|]. split; [reflexivity|]. split; [reflexivity|].
+  split; [discriminate|reflexivity].
+Qed.
+
+(* gap: the attacher snapshots the (empty) cache, the publisher caches and broadcasts the key
+   packet p1 while the consumer is not yet registered, then the attacher registers: p1 is neither
+   replayed nor live *)
+Definition d1_gap : lcase :=
+  d1_case 2 [TAtt 0; TPub; TPub; TPub; TAtt 0; TAtt 0].
+
+Example join_gap_refuted :
+  let s := lrun d1_gap in let k := s_cs s 0 in
+  let p1 := {| p_id := 1; p_kind := 2 |} in
+  c_regat k = Some 1%nat /\ s_sent s = [p1] /\ c_reg k = true /\
+  spec_snap true (firstn 1 (s_sent s)) = [p1] /\ c_prefill k = [] /\ c_pushed k = [].
+Proof. vm_compute. repeat (split; [reflexivity|]). reflexivity. Qed.
+
+(* the same schedule (run a little longer so that the blocked attacher finishes) on the repaired
+   code: the consumer is handed p1 once *)
+Definition d1_repeat_long (v : variant) : lcase :=
+  {| l_var := v; l_n := 1; l_maxq := 5; l_gop := true;
+     l_pkts := [ {| p_id := 1; p_kind := 3 |} ]; l_stop := [false];
+     l_sched := l_sched d1_repeat ++ [TAtt 0; TCons 0; TCons 0; TCons 0; TCons 0];
+     l_panic := [O] |}.
+
+Example join_repeat_fixed :
+  c_out (s_cs (lrun (d1_repeat_long original)) 0) =
+    [ {| p_id := 1; p_kind := 3 |}; {| p_id := 1; p_kind := 3 |} ] /\
+  c_out (s_cs (lrun (d1_repeat_long fixed)) 0) = [ {| p_id := 1; p_kind := 3 |} ].
+Proof. vm_compute. split; reflexivity. Qed.
